@@ -522,6 +522,10 @@ class Vector(AutoSerialize):
             np.asarray(i) if isinstance(i, (list, np.ndarray)) else i for i in normalized
         )
 
+        # Fewer indices than fixed dimensions address whole sub-blocks, as in __getitem__
+        if len(idx_converted) < len(self.shape):
+            idx_converted = idx_converted + (slice(None),) * (len(self.shape) - len(idx_converted))
+
         # Check if we're doing slice‐ or array‐based (multi‐cell) indexing
         has_fancy = any(
             isinstance(i, slice) or (isinstance(i, np.ndarray) and i.size > 1)
